@@ -1707,3 +1707,275 @@ func TestVerifReplay(t *testing.T) {
 `
 	return "ads", ".", src, true
 }
+
+// ---------- C08 (BatchedWriter) ----------
+func init() { replayGens["c08"] = replayC08 }
+
+func replayC08(o *Obligation) (string, string, string, bool) {
+	if !strings.HasPrefix(o.Name, "kvstore.Batch") && !strings.HasPrefix(o.Name, "kvstore.newBatchCollector") {
+		return "", "", "", false
+	}
+	src := `package kvstore
+
+import (
+	"runtime"
+	"sync"
+	"sync/atomic"
+	"testing"
+	"time"
+)
+
+// oracle: every object whose Enqueue was accepted before StopBatchWriter was invoked has been marshalled, committed
+// and notified (in this order, once per scheduling) when StopBatchWriter - any call of it - returns, the store
+// holds the last state of each object, and no Enqueue stays blocked. Deterministic schedules (doubles block the
+// writer where the schedule needs it); only Batched() of the KVStore interface is used by the BatchedWriter.
+type rpStore struct {
+	KVStore
+	mu            sync.Mutex
+	data          map[string]string
+	commits       int
+	commitEntered chan struct{}
+	commitRelease chan struct{}
+	enteredOnce   sync.Once
+	failCommit    bool
+}
+
+func (s *rpStore) Batched() (BatchedMutations, error) { return &rpBatch{s: s, muts: map[string]string{}}, nil }
+
+type rpBatch struct {
+	s    *rpStore
+	muts map[string]string
+}
+
+func (b *rpBatch) Set(key Key, value Value) error { b.muts[string(key)] = string(value); return nil }
+func (b *rpBatch) Delete(key Key) error           { delete(b.muts, string(key)); return nil }
+func (b *rpBatch) Cancel()                        {}
+func (b *rpBatch) Commit() error {
+	if b.s.commitEntered != nil {
+		b.s.enteredOnce.Do(func() { close(b.s.commitEntered) })
+		<-b.s.commitRelease
+	}
+	b.s.mu.Lock()
+	defer b.s.mu.Unlock()
+	b.s.commits++
+	for k, v := range b.muts {
+		b.s.data[k] = v
+	}
+	return nil
+}
+func (s *rpStore) get(k string) string { s.mu.Lock(); defer s.mu.Unlock(); return s.data[k] }
+func (s *rpStore) ncommits() int       { s.mu.Lock(); defer s.mu.Unlock(); return s.commits }
+
+type rpObj struct {
+	key       string
+	val       atomic.Value
+	store     *rpStore
+	scheduled atomic.Bool
+	writes    atomic.Int32
+	dones     atomic.Int32
+	doneEarly atomic.Int32 // BatchWriteDone calls that came before the value was in the store
+	lastWrote atomic.Value
+	onWrite   func()
+}
+
+func (o *rpObj) BatchWrite(m BatchedMutations) {
+	v := o.val.Load().(string)
+	_ = m.Set(Key(o.key), Value(v))
+	o.lastWrote.Store(v)
+	o.writes.Add(1)
+	if o.onWrite != nil {
+		o.onWrite()
+	}
+}
+func (o *rpObj) BatchWriteDone() {
+	if o.store != nil && o.store.get(o.key) != o.lastWrote.Load().(string) {
+		o.doneEarly.Add(1)
+	}
+	o.dones.Add(1)
+}
+func (o *rpObj) BatchWriteScheduled() bool  { return !o.scheduled.CompareAndSwap(false, true) }
+func (o *rpObj) ResetBatchWriteScheduled() { o.scheduled.Store(false) }
+
+func newObj(s *rpStore, k, v string) *rpObj { o := &rpObj{key: k, store: s}; o.val.Store(v); return o }
+
+func waitUntil(cond func() bool, max time.Duration) bool {
+	deadline := time.Now().Add(max)
+	for time.Now().Before(deadline) {
+		if cond() {
+			return true
+		}
+		time.Sleep(time.Millisecond)
+	}
+	return cond()
+}
+
+func TestVerifReplay(t *testing.T) {
+	fail := func(format string, a ...any) { t.Fatalf("REPLAY-VIOLATION "+format, a...) }
+	stop := func(bw *BatchedWriter, what string) {
+		stopped := make(chan struct{})
+		go func() { bw.StopBatchWriter(); close(stopped) }()
+		select {
+		case <-stopped:
+		case <-time.After(5 * time.Second):
+			fail("%s: StopBatchWriter does not return (scheduledCount=%d: the writer waits for objects that were never queued, or has not been started)", what, bw.scheduledCount.Load())
+		}
+	}
+
+	// (1) Stop right after the Enqueue that started the writer, before the new goroutine has been scheduled
+	{
+		prev := runtime.GOMAXPROCS(1)
+		for i := 0; i < 20; i++ {
+			s := &rpStore{data: map[string]string{}}
+			bw := NewBatchedWriter(s, WithBatchTimeout(5*time.Millisecond))
+			o := newObj(s, "k", "v")
+			bw.Enqueue(o)
+			bw.StopBatchWriter()
+			if o.writes.Load() != 1 || o.dones.Load() != 1 || s.get("k") != "v" {
+				runtime.GOMAXPROCS(prev)
+				fail("Enqueue; StopBatchWriter (iteration %d): Stop returned with BatchWrite=%d BatchWriteDone=%d store=%q (the writer goroutine had not been counted in the WaitGroup yet)", i, o.writes.Load(), o.dones.Load(), s.get("k"))
+			}
+		}
+		runtime.GOMAXPROCS(prev)
+	}
+
+	// (2) order: marshalled, committed, then notified - once; an empty batch commits nothing
+	{
+		s := &rpStore{data: map[string]string{}}
+		bw := NewBatchedWriter(s, WithBatchSize(2), WithBatchTimeout(5*time.Millisecond))
+		a, b, c := newObj(s, "a", "A"), newObj(s, "b", "B"), newObj(s, "c", "C")
+		bw.Enqueue(a)
+		bw.Enqueue(b)
+		bw.Enqueue(c)
+		bw.Enqueue(c) // already scheduled or already written: never two notifications for one scheduling
+		stop(bw, "Enqueue(a); Enqueue(b); Enqueue(c); Enqueue(c)")
+		for _, o := range []*rpObj{a, b, c} {
+			if o.doneEarly.Load() != 0 {
+				fail("BatchWriteDone of %s was called before its value was committed to the store", o.key)
+			}
+			if o.writes.Load() != o.dones.Load() || o.writes.Load() < 1 || s.get(o.key) != o.val.Load().(string) {
+				fail("object %s: BatchWrite=%d BatchWriteDone=%d store=%q after StopBatchWriter", o.key, o.writes.Load(), o.dones.Load(), s.get(o.key))
+			}
+		}
+	}
+
+	// (3) an object that is modified and enqueued again while it is being marshalled is written again
+	{
+		s := &rpStore{data: map[string]string{}}
+		bw := NewBatchedWriter(s, WithBatchSize(1), WithBatchTimeout(5*time.Millisecond))
+		o := newObj(s, "k", "v1")
+		var once sync.Once
+		o.onWrite = func() {
+			once.Do(func() {
+				o.val.Store("v2")
+				returned := make(chan struct{})
+				go func() { bw.Enqueue(o); close(returned) }()
+				select {
+				case <-returned:
+				case <-time.After(2 * time.Second):
+				}
+			})
+		}
+		bw.Enqueue(o)
+		waitUntil(func() bool { return o.dones.Load() >= 2 }, 500*time.Millisecond)
+		stop(bw, "object enqueued again during its BatchWrite")
+		if s.get("k") != "v2" {
+			fail("object modified and enqueued again during its BatchWrite: the store holds %q, not its last state \"v2\" (BatchWrite=%d): the second Enqueue was swallowed as already scheduled", s.get("k"), o.writes.Load())
+		}
+	}
+
+	// (4) Stop while an accepted producer waits for a queue slot: its object is written, it does not stay blocked
+	{
+		s := &rpStore{data: map[string]string{}}
+		bw := NewBatchedWriter(s, WithQueueSize(0), WithBatchSize(1), WithBatchTimeout(20*time.Millisecond))
+		writerBusy, release := make(chan struct{}), make(chan struct{})
+		a, b := newObj(s, "a", "A"), newObj(s, "b", "B")
+		a.onWrite = func() { close(writerBusy); <-release }
+		bw.Enqueue(a)
+		<-writerBusy
+		bReturned := make(chan struct{})
+		go func() { bw.Enqueue(b); close(bReturned) }()
+		waitUntil(func() bool { return b.scheduled.Load() }, 2*time.Second)
+		waitUntil(func() bool { return bw.scheduledCount.Load() == 1 }, 300*time.Millisecond)
+		stopped := make(chan struct{})
+		go func() { bw.StopBatchWriter(); close(stopped) }()
+		waitUntil(func() bool { return !bw.running.Load() }, 2*time.Second)
+		close(release)
+		select {
+		case <-stopped:
+		case <-time.After(5 * time.Second):
+			fail("StopBatchWriter blocked")
+		}
+		if s.get("b") != "B" || b.writes.Load() != 1 || b.dones.Load() != 1 {
+			fail("object accepted by Enqueue before Stop (producer waiting for a queue slot) was lost: store=%q BatchWrite=%d BatchWriteDone=%d", s.get("b"), b.writes.Load(), b.dones.Load())
+		}
+		select {
+		case <-bReturned:
+		case <-time.After(2 * time.Second):
+			fail("Enqueue is still blocked after StopBatchWriter returned")
+		}
+	}
+
+	// (6) StopBatchWriter runs while a producer is between its checks and the queue send (yield point of the verif
+	// build): the producer must not block forever, its object is written completely or not touched at all
+	{
+		s := &rpStore{data: map[string]string{}}
+		bw := NewBatchedWriter(s, WithQueueSize(0), WithBatchSize(1), WithBatchTimeout(5*time.Millisecond))
+		bw.Enqueue(newObj(s, "first", "x")) // starts the writer
+		inWindow, release := make(chan struct{}), make(chan struct{})
+		var once sync.Once
+		VerifEnqueueYield = func() { once.Do(func() { close(inWindow); <-release }) }
+		o := newObj(s, "k", "v")
+		returned := make(chan struct{})
+		go func() { bw.Enqueue(o); close(returned) }()
+		<-inWindow
+		stopped := make(chan struct{})
+		go func() { bw.StopBatchWriter(); close(stopped) }()
+		select {
+		case <-stopped: // Stop did not have to wait: then the object must not be touched afterwards
+		case <-time.After(300 * time.Millisecond): // Stop waits for the accepted object
+		}
+		close(release)
+		select {
+		case <-returned:
+		case <-time.After(2 * time.Second):
+			VerifEnqueueYield = nil
+			fail("StopBatchWriter ran while a producer was between the running check and the queue send (queue size 0): the producer's Enqueue is blocked forever (BatchWrite=%d BatchWriteDone=%d), the writer has left", o.writes.Load(), o.dones.Load())
+		}
+		VerifEnqueueYield = nil
+		select {
+		case <-stopped:
+		case <-time.After(5 * time.Second):
+			fail("StopBatchWriter blocked")
+		}
+		if w, d := o.writes.Load(), o.dones.Load(); !(w == 1 && d == 1 && s.get("k") == "v") && !(w == 0 && d == 0 && s.get("k") == "") {
+			fail("Enqueue racing with StopBatchWriter: object neither written completely nor untouched: BatchWrite=%d BatchWriteDone=%d store=%q", w, d, s.get("k"))
+		}
+	}
+
+	// (5) two concurrent Stop calls while a commit is in flight: both return only after it
+	{
+		s := &rpStore{data: map[string]string{}, commitEntered: make(chan struct{}), commitRelease: make(chan struct{})}
+		bw := NewBatchedWriter(s, WithQueueSize(10), WithBatchSize(1), WithBatchTimeout(20*time.Millisecond))
+		a := newObj(nil, "a", "A")
+		bw.Enqueue(a)
+		<-s.commitEntered
+		first := make(chan struct{})
+		go func() { bw.StopBatchWriter(); close(first) }()
+		waitUntil(func() bool { return !bw.running.Load() }, 2*time.Second)
+		go func() { time.Sleep(150 * time.Millisecond); close(s.commitRelease) }()
+		second := make(chan struct{})
+		go func() { bw.StopBatchWriter(); close(second) }()
+		select {
+		case <-second:
+		case <-time.After(5 * time.Second):
+			fail("second StopBatchWriter blocked")
+		}
+		if s.get("a") != "A" || a.dones.Load() != 1 {
+			fail("a second, concurrent StopBatchWriter returned before the enqueued object was persisted: store=%q BatchWriteDone=%d", s.get("a"), a.dones.Load())
+		}
+		<-first
+	}
+}
+`
+	return "kvstore", ".", src, true
+}
